@@ -56,6 +56,7 @@ type Profile struct {
 	PVariadic    float64
 	PViaOpt      float64
 	PMidInvoke   float64
+	PReenter     float64
 	Invokes      [2]int
 	InvokeFaults bool
 }
@@ -447,6 +448,24 @@ func genHistory(r *rand.Rand, p Profile) *History {
 		op.Callback = g.coin(p.PCallback)
 		op.Info = g.coin(p.PInfo)
 		regOps = append(regOps, op)
+	}
+	if p.PReenter > 0 {
+		for _, op := range regOps {
+			f := h.Fns[op.Fn]
+			if !g.coin(p.PReenter) {
+				continue
+			}
+			nf := g.newFn()
+			// ask for one of the function's own keys (re-entry into itself) or for something else
+			if g.coin(0.6) && len(f.Results) > 0 {
+				r := f.Results[g.r.Intn(len(f.Results))]
+				nf.Params = []Param{{K: r.K}}
+			} else {
+				nf.Params = g.randParams(1+g.r.Intn(2), op.Scope, -1)
+			}
+			g.encodeParamsOnly(nf)
+			f.Reenter = nf.ID + 1
+		}
 	}
 	g.r.Shuffle(len(regOps), func(i, j int) { regOps[i], regOps[j] = regOps[j], regOps[i] })
 
